@@ -777,3 +777,53 @@ def next_open(clock):
         if OPEN[j]:
             return j
     return None
+
+
+# ------------------------------------------------------------------------------------------
+# long periodic histories: every cycle of up to ``max_cycle`` events over a small alphabet, repeated
+# many times (all at one open instant, so fills keep happening).  A complement to the depth-bounded
+# BFS for behaviour that depends on a COUNT (the n-th fill, a history longer than n entries, a cache
+# or queue that fills up): the family is finite and enumerated completely.
+# ------------------------------------------------------------------------------------------
+PERIODIC_PREFIX = (('acct_sub', '900000'), ('create', '1'), ('create', '2'), ('pf_sub', '1', '300000'),
+                   ('pf_sub', '2', '300000'), ('tick', 3))
+PERIODIC_EVENTS = [('submit', '1', 'A', 3), ('submit', '1', 'A', -3), ('submit', '1', 'B', 5), ('submit', '2', 'A', -8),
+                   ('submit', '2', 'B', 2), ('tick', 3), ('quotes', 1), ('quotes', 0), ('pf_sub', '1', '99.995'),
+                   ('pf_wd', '1', '16.667')]
+
+
+def periodic_items(fees, max_cycle=2, repeats=(40, 150)):
+    import itertools
+    out = []
+    for fee in fees:
+        for n in range(1, max_cycle + 1):
+            for cyc in itertools.product(PERIODIC_EVENTS, repeat=n):
+                if not any(e[0] == 'tick' for e in cyc) and not all(e[0] in ('pf_sub', 'pf_wd') for e in cyc):
+                    cyc = cyc + (('tick', 3),)          # orders only: flush them once per cycle
+                out.append({'fee': list(fee), 'cycle': [list(e) for e in cyc], 'repeats': list(repeats)})
+    return out
+
+
+def periodic_point(item, own_prefix, df_check=False):
+    """replays prefix + cycle x r for each r in repeats; full comparison after the last event of each"""
+    fee = tuple(item['fee'])
+    cyc = [tuple(e) for e in item['cycle']]
+    viols, n = [], 0
+    for r in item['repeats']:
+        hist = PERIODIC_PREFIX + tuple(cyc) * r
+        m, fails = build(fee, hist, check_last=True)
+        if df_check:
+            fails = fails + m.compare_history_df(only=set(m.pfs))
+        n += 1
+        own = [f for f in fails if f['clause'].startswith(own_prefix)]
+        for f in own:
+            viols.append(dict(f, case={'harness': 'periodic', 'fee': list(fee), 'cycle': item['cycle'], 'repeat': r}))
+        if fails:
+            break
+    return {'viols': viols[:4], 'execs': n, 'evals': n, 'nontrivial': True, 'outcome': None,
+            'counters': {'periodic_histories': n, 'periodic_events': sum(item['repeats'][:n]) * len(cyc)}}
+
+
+def replay_periodic(case, own_prefix, df_check=False):
+    item = {'fee': case['fee'], 'cycle': case['cycle'], 'repeats': [case['repeat']]}
+    return periodic_point(item, own_prefix, df_check)['viols']
